@@ -3,6 +3,7 @@ package main
 import (
 	"fmt"
 	"os"
+	"sort"
 	"strings"
 
 	"github.com/ohler55/ojg/sen"
@@ -262,8 +263,39 @@ func pooledPhase(g *senGen, n int) {
 		os.Exit(3)
 	}
 	defer d.Close()
-	states := []pstate{{false, "-", "-"}}
+	states := []pstate{{false, "-", "-"}} // most recently produced first, bounded
+	archive := map[string]pstate{states[0].key(): states[0]}
 	var descr []string
+	ask := func(sts []pstate, sp runSpec, reads []int, hx string) []modelAns {
+		reqs := make([]string, len(sts))
+		for k, st := range sts {
+			carried := ""
+			if st.plus {
+				carried = "+"
+			}
+			reqs[k] = sp.modelKey(reads, carried) + "\t" + hx + "\t" + st.lsk + "\t" + st.lk
+		}
+		ans, err := d.Ask(reqs)
+		if err != nil {
+			fmt.Fprintln(os.Stderr, err)
+			os.Exit(3)
+		}
+		out := make([]modelAns, len(ans))
+		for k := range ans {
+			out[k] = parseModel(ans[k])
+		}
+		return out
+	}
+	afterOf := func(m modelAns) pstate {
+		after := pstate{m.plus, m.lsk, m.lk}
+		if m.fault && strings.Contains(m.kind, "index_out_of_range_[0]") {
+			after.plus = false // addString cleared the flag before the empty stack was delivered
+		}
+		if !after.plus {
+			after.lsk = "-" // dead: the next '+' overwrites it before it is read
+		}
+		return after
+	}
 	for i := 0; i < n; i++ {
 		c := hg.call()
 		c.reuse = false
@@ -291,55 +323,59 @@ func pooledPhase(g *senGen, n int) {
 		rep.Count("pooled_calls", 1)
 		sp := c.spec(false)
 		hx := lib.HexF(c.in)
-		reqs := make([]string, len(states))
-		for k, st := range states {
-			carried := ""
-			if st.plus {
-				carried = "+"
-			}
-			reqs[k] = sp.modelKey(reads, carried) + "\t" + hx + "\t" + st.lsk + "\t" + st.lk
-		}
-		ans, err := d.Ask(reqs)
-		if err != nil {
-			fmt.Fprintln(os.Stderr, err)
-			os.Exit(3)
-		}
 		explainedByPlus, explained := false, false
-		seen := map[string]bool{}
-		var next []pstate
-		addState := func(p pstate) {
-			if !seen[p.key()] {
-				seen[p.key()] = true
-				next = append(next, p)
-			}
-		}
 		var how string
-		for k, st := range states {
-			m := parseModel(ans[k])
-			if tie(m, got, sp) != "" {
-				addState(st) // another instance may still be in this state
-				continue
+		seen := map[string]bool{}
+		var fresh, old []pstate
+		consider := func(sts []pstate) {
+			ms := ask(sts, sp, reads, hx)
+			for k, st := range sts {
+				m := ms[k]
+				if tie(m, got, sp) != "" {
+					if !seen[st.key()] {
+						seen[st.key()] = true
+						old = append(old, st) // another instance may still be in this state
+					}
+					continue
+				}
+				explained = true
+				if st.plus && !explainedByPlus {
+					explainedByPlus = true
+					how = m.raw
+				}
+				after := afterOf(m)
+				archive[after.key()] = after
+				if !seen[after.key()] {
+					seen[after.key()] = true
+					fresh = append(fresh, after)
+				}
+				if !seen[st.key()] {
+					seen[st.key()] = true
+					old = append(old, st)
+				}
 			}
-			explained = true
-			if st.plus && !explainedByPlus {
-				explainedByPlus = true
-				how = m.raw
-			}
-			after := pstate{m.plus, m.lsk, m.lk}
-			if m.fault && strings.Contains(m.kind, "index_out_of_range_[0]") {
-				after.plus = false // addString cleared the flag before the empty stack was delivered
-			}
-			addState(after)
-			addState(st)
 		}
-		if len(next) > 64 {
-			next = next[:64]
+		consider(states)
+		if !explained {
+			// an instance that has not been handed out for a long time: every state ever produced
+			var all []pstate
+			for _, st := range archive {
+				if !seen[st.key()] {
+					all = append(all, st)
+				}
+			}
+			sort.Slice(all, func(a, b int) bool { return all[a].key() < all[b].key() })
+			rep.Count("pooled.archive_lookups", 1)
+			consider(all)
 		}
-		states = next
+		states = append(fresh, old...)
+		if len(states) > 96 {
+			states = states[:96]
+		}
 		if sameOutcome(got, f.o) && explained {
 			continue
 		}
-		ex := map[string]any{"last_calls": append([]string{}, descr...), "pooled": got.String(), "fresh_instance": f.o.String(), "states_tracked": len(states)}
+		ex := map[string]any{"last_calls": append([]string{}, descr...), "pooled": got.String(), "fresh_instance": f.o.String(), "states_tracked": len(archive)}
 		switch {
 		case !sameOutcome(got, f.o) && explainedByPlus:
 			ex["model_from_a_plus_state"] = how
@@ -347,7 +383,7 @@ func pooledPhase(g *senGen, n int) {
 		case !sameOutcome(got, f.o):
 			add("violation", "history:pooled", "sen.Parse/ParseReader through the pool differs from a fresh parser: "+got.String()+" instead of "+f.o.String(), c.in, ex)
 		default:
-			add("disagreement", "model:pooled", "no tracked instance state explains the pooled call (it equals the fresh parser)", c.in, ex)
+			add("disagreement", "model:pooled", "no instance state the model has ever produced explains the pooled call (it equals the fresh parser)", c.in, ex)
 		}
 	}
 }
@@ -370,6 +406,9 @@ func runC07() {
 		hg := &histGen{&senGen{r: lib.NewRng(*seed + 7777)}}
 		var hs [][]hcall
 		var fs []bool
+		if !on("hist") {
+			nHist = 0
+		}
 		for i := 0; i < nHist; i++ {
 			n := 2 + hg.g.r.Intn(5)
 			h := make([]hcall, n)
